@@ -12,6 +12,16 @@
 //!   x<sid>:<code> STOP_SENDING; C<code> application close; T timeout;
 //!   gu<n> / gb<n> grant stream credit; gw<sid>:<n> grant write credit; cw<sid>:<n> set it
 //!   #<text> annotation for the model side, ignored here
+//!   !<site>[<target>][@<skip>]:<err> arm a transport fault (sim.rs `parse_fault`): the next call (after
+//!   `skip` more) of `ou` poll_open_send / `ob` poll_open_bidi (target = ordinal of the stream to be opened),
+//!   `sd` send_data / `pr` poll_ready / `pf` poll_finish / `rd` poll_data (target = stream id), `au`
+//!   poll_accept_recv / `ab` poll_accept_bidi answers `C<code>` ApplicationClose, `T` Timeout, `I`
+//!   InternalError, `U` Undefined (connection errors, sticky: the connection has failed), `X<code>`
+//!   StreamTerminated or `K` Unknown (stream errors); `!pf<sid>:P`: that poll_finish answers `Pending` once.
+//!   With faults the summary ends with `fired=[labels]`.
+//!   cfg hold=1: `builder.build(conn)` is not called at the start but by the api op `conn.B` / `drv.B`
+//!   cfg ops=1: every op of the script is logged into the trace as `@<op>` before it is applied, and (with
+//!   ev=1) a fault that fires as `!<label>`: the trace is then the complete interleaved history
 //! api ops: <task>.<cmd>  (tasks: conn, drv, snd, q<sid>, q<sid>s); `conn.U` / `drv.U` list and drain the
 //!   WebTransport uni streams accepted so far (`<session>:<hex>:<open|fin|rst<c>>,…`); <task>.kill drops
 //!   the task's future, <task>.kill? does the same but tolerates a task that does not exist (any more)
@@ -368,8 +378,30 @@ fn drain_wt_uni(acc: &mut h3::connection::AcceptedStreams<SimConn, Bytes>) -> St
     }
 }
 
+/// cfg `hold=1`: the builder call is part of the scenario (`<task>.B`), so that transport faults can be
+/// armed before it; `D` ends the task without a connection.  false = the task ends
+async fn wait_for_build(name: &str, mb: &Mailbox, ctx: &Ctx) -> bool {
+    if !ctx.net.borrow().hold {
+        return true;
+    }
+    loop {
+        let cmd = NextCmd(mb.clone()).await;
+        match cmd.as_str() {
+            "B" => return true,
+            "D" => {
+                ctx.log(name, "D", "ok".into());
+                return false;
+            }
+            other => ctx.log(name, other.split(':').next().unwrap_or(""), "bad-cmd".into()),
+        }
+    }
+}
+
 async fn server_conn_task(builder: h3::server::Builder, mb: Mailbox, ctx: Ctx) {
     let name = format!("{}conn", ctx.prefix);
+    if !wait_for_build(&name, &mb, &ctx).await {
+        return;
+    }
     ctx.begin(&name, "build");
     let mut conn = match builder.build::<SimConn, Bytes>(SimConn { net: ctx.net.clone() }).await {
         Ok(c) => {
@@ -1008,6 +1040,9 @@ async fn client_send_task(mut snd: h3::client::SendRequest<SimOpen, Bytes>, mb: 
 
 async fn client_conn_task(mut builder: h3::client::Builder, mb: Mailbox, ctx: Ctx) {
     let name = format!("{}drv", ctx.prefix);
+    if !wait_for_build(&name, &mb, &ctx).await {
+        return;
+    }
     ctx.begin(&name, "build");
     let conn = SimConn { net: ctx.net.clone() };
     let opener = SimOpen { net: ctx.net.clone() };
@@ -1089,10 +1124,12 @@ pub struct Cfg {
     pub bc: usize,
     pub wc: usize,
     pub ev: bool,
+    pub hold: bool,
+    pub ops: bool,
 }
 
 pub fn parse_cfg(s: &str) -> Option<Cfg> {
-    let mut c = Cfg { grease: false, mfs: None, wt: false, ec: false, dg: false, wts: None, seed: 0, uc: UNLIMITED, bc: UNLIMITED, wc: UNLIMITED, ev: false };
+    let mut c = Cfg { grease: false, mfs: None, wt: false, ec: false, dg: false, wts: None, seed: 0, uc: UNLIMITED, bc: UNLIMITED, wc: UNLIMITED, ev: false, hold: false, ops: false };
     for t in s.split(',') {
         if t == "-" || t.is_empty() {
             continue;
@@ -1113,6 +1150,8 @@ pub fn parse_cfg(s: &str) -> Option<Cfg> {
                 "bc" => c.bc = v.parse().ok()?,
                 "wc" => c.wc = v.parse().ok()?,
                 "ev" => c.ev = v == "1",
+                "hold" => c.hold = v == "1",
+                "ops" => c.ops = v == "1",
                 _ => return None,
             }
         } else {
@@ -1140,6 +1179,8 @@ fn spawn_endpoint(exec: &Exec, role: &str, cfg: &Cfg, prefix: &str, trace: Trace
         n.uni_credit = cfg.uc;
         n.bidi_credit = cfg.bc;
         n.default_tx_credit = cfg.wc;
+        n.hold = cfg.hold;
+        n.log_ops = cfg.ops;
     }
     let ctx = Ctx { prefix: prefix.to_string(), trace, spawner: exec.spawner.clone(), inflight: Default::default(), net };
     if cfg.ev {
@@ -1197,6 +1238,9 @@ pub fn start2(ccfg: &Cfg, scfg: &Cfg) -> Option<Run> {
 impl Run {
     /// one op; returns false on a malformed op
     pub fn op(&mut self, op: &str) -> bool {
+        if self.ctx.net.borrow().log_ops {
+            self.ctx.trace.borrow_mut().push(format!("@{}", op));
+        }
         let ok = self.apply(op);
         self.exec.run();
         ok
@@ -1285,6 +1329,15 @@ impl Run {
                 n.set_write_credit(id, k as usize);
                 true
             }
+            // !<site>[<target>][@<skip>]:<err> arm a transport fault
+            Some(b'!') => match parse_fault(&op[1..]) {
+                Some(f) => {
+                    n.faults.push(f);
+                    n.fault_seen = true;
+                    true
+                }
+                None => false,
+            },
             Some(b'C') => num(&op[1..]).map(|c| n.fail(ConnectionErrorIncoming::ApplicationClose { error_code: c })).is_some(),
             Some(b'T') if op == "T" => {
                 n.fail(ConnectionErrorIncoming::Timeout);
@@ -1446,6 +1499,9 @@ impl Run {
         }
         let pend: Vec<String> = ctx.inflight.borrow().iter().map(|(t, o)| format!("{}.{}", t, o)).collect();
         parts.push(format!("pending=[{}]", pend.join(",")));
+        if n.fault_seen {
+            parts.push(format!("fired=[{}]", n.fired.join(",")));
+        }
         parts.join(" ")
     }
 
@@ -1469,8 +1525,19 @@ pub fn handle(w: &[&str]) -> String {
                 run.output()
             })
         }
-        [_, role, cfg, ops @ ..] => {
+        [name, role, cfg, ops @ ..] => {
             let Some(cfg) = parse_cfg(cfg) else { return "bad-op".into() };
+            // engine `out` (C14) only: the reserved identifiers h3 draws (`fastrand`) are a function of
+            // the line (FNV-1a over its tokens), so that a line always replays to the same bytes
+            if *name == "out" {
+                let mut h: u64 = 0xcbf29ce484222325;
+                for t in w {
+                    for b in t.bytes().chain(std::iter::once(b' ')) {
+                        h = (h ^ b as u64).wrapping_mul(0x100000001b3);
+                    }
+                }
+                fastrand::seed(h);
+            }
             guarded(|| {
                 let Some(mut run) = start(role, &cfg) else { return "bad-op".into() };
                 for op in ops {
